@@ -126,7 +126,7 @@ def mutate_proto(t, rng):
     c = rng.randrange(4)
     if c == 0 and e["fired"]:
         e["fired"] = []
-    elif c == 1 and e["sent"]:
+    elif c == 1 and e["sent"] and e.get("k"):      # only an explicitly requested id is determined by the spec (id=None: any free id)
         e["sent"][0] = e["sent"][0] % t["cfg"]["idmax"] + 1
     elif c == 2:
         e["timers"] += 1
